@@ -92,7 +92,7 @@ def r4_2(ctx):
         for n in walk_local(f.node):
             if isinstance(n, ast.Raise) and n.exc is not None and "MarkupError" in norm(n.exc):
                 raises.append((f, n))
-    ctx.floor(len(raises), 2, "raise MarkupError sites")
+    ctx.floor(len(raises), 1, "raise MarkupError sites")
     aliases = alias_map(render.node)
     for f, r in raises:
         h = None
